@@ -171,7 +171,8 @@ func TwistExtrude3D(sdf SDF2, height, twist float64) SDF3 {
 	s.extrude = TwistExtrude(height, twist)
 	// work out the bounding box
 	bb := sdf.BoundingBox()
-	l := bb.Max.Length()
+	// the twist sweeps the vertex furthest from the z-axis through any direction
+	l := bb.Max.Abs().Max(bb.Min.Abs()).Length()
 	s.bb = Box3{v3.Vec{-l, -l, -s.height}, v3.Vec{l, l, s.height}}
 	return &s
 }
@@ -198,7 +199,8 @@ func ScaleTwistExtrude3D(sdf SDF2, height, twist float64, scale v2.Vec) SDF3 {
 	// work out the bounding box
 	bb := sdf.BoundingBox()
 	bb = bb.Extend(Box2{bb.Min.Mul(scale), bb.Max.Mul(scale)})
-	l := bb.Max.Length()
+	// the twist sweeps the vertex furthest from the z-axis through any direction
+	l := bb.Max.Abs().Max(bb.Min.Abs()).Length()
 	s.bb = Box3{v3.Vec{-l, -l, -s.height}, v3.Vec{l, l, s.height}}
 	return &s
 }
